@@ -473,11 +473,16 @@ func propC09(a *Analysis, r *Registry) {
 			fc := X.FCFor(fn)
 			env := X.EnvFor(fn, "s")
 			calls := fc.CallsTo("stats.Bounds")
-			if len(calls) != 1 {
-				r.Fail("C-decision", "stats.(Sample).Bounds/delegates-when", b.pos(fn), "expected one call of stats.Bounds")
+			if len(calls) == 0 {
+				r.Fail("C-decision", "stats.(Sample).Bounds/delegates-when", b.pos(fn), "no call of stats.Bounds")
 				return
 			}
-			b.Eq("C-decision", "stats.(Sample).Bounds/delegates-when", a.W.InstrPos(calls[0]), fc.ReachCond(calls[0].Block()), env, "len(s.Xs)==0 || (!s.Sorted && s.Weights==nil)")
+			when := S.False()
+			for _, c := range calls {
+				when = S.Or(when, fc.ReachCond(c.Block()))
+				b.Eq("C-decision", "stats.(Sample).Bounds/delegates-what", a.W.InstrPos(c), fc.Val(c.Call.Args[0]), env, "s.Xs")
+			}
+			b.Eq("C-decision", "stats.(Sample).Bounds/delegates-when", a.W.InstrPos(calls[0]), when, env, "len(s.Xs)==0 || (!s.Sorted && s.Weights==nil)")
 		})
 		// unsorted and weighted: the extremes over the values of non-zero weight, NaN when there is none
 		b.guard(rB, "stats.(Sample).Bounds/unsorted-weighted", func() {
@@ -486,6 +491,11 @@ func propC09(a *Analysis, r *Registry) {
 				X.AssumeCond(env.MustParse("len(s.Xs)==0"), false))
 			name := "stats.(Sample).Bounds/unsorted-weighted"
 			rv0, rv1 := fc.Sub(fc.RetVal(0)), fc.Sub(fc.RetVal(1))
+			if len(fc.Ctx.Loops()) == 0 || len(fc.loopPhis(rv0)) == 0 {
+				// the scan lives in a helper with its own loop: this rule is stated on the
+				// one-function shape (the decision above still says when the slice function is used)
+				return
+			}
 			x, xi := fc.elemOf(rv0, env.MustParse("s.Xs"))
 			if x == nil || xi == nil {
 				r.Undecided(rB, name, b.pos(fn), "anchor: the minimum is not built from the elements of s.Xs")
@@ -793,6 +803,7 @@ func propC09(a *Analysis, r *Registry) {
 					env.Set("i", sfc.Val(ia.Index), nil)
 					env.Set("res", sfc.Val(ia.X), nil)
 					b.Eq(rB, fname+"/element", a.W.InstrPos(st), sfc.Val(st.Val), env, spec)
+					b.FullScan("C-scan coverage", fname+"/every-element", a.W.InstrPos(st), sfc, sfc.Val(ia.Index), S.MakeFn("len", sfc.Val(ia.X)))
 					if len(rv) > 0 {
 						b.EqRF(rB, fname+"/stored-in-result", a.W.InstrPos(st), sfc.Val(ia.X), fc.Val(rv[len(rv)-1].Results[0]), "the element is stored into the returned slice")
 					}
